@@ -14,6 +14,8 @@ R27c caught-up discipline: in _send_buffered_batch the transition to "Reconnecte
      each of them (copy -> clear -> post every element); _buffer_message appends.
 R27d the periodic producer keeps buffering while disconnected: buffer_messages puts every non-None
      message it builds into the buffer.
+R27e the gathered posts of a batch are awaited to completion: not under asyncio.wait_for / timeout (which cancel what is still
+     pending after the messages have left the buffer), unless _post_async puts the message back when it is cancelled.
 Does not decide delivery order or duplication under all interleavings.
 """
 from __future__ import annotations
@@ -196,6 +198,44 @@ def run(ctx) -> None:
         ctx.ok("R27c", "_buffer_message appends to the buffer")
     else:
         ctx.fail("R27c", bm, bm.node, "_buffer_message appends to the buffer", "message not stored")
+    # ---- R27e: the posts of a batch run to completion
+    ctx.rule("R27e", "posts of buffered messages are not cancelled once the messages have left the buffer")
+    from ..model import parent_map
+    pm_sb = parent_map(sb.node)
+    inst = "_send_buffered_batch: the gathered posts are awaited to completion (or a cancelled post puts its message back)"
+    cancel_wrap = None
+    for gn in gather:
+        for c in gn.calls():
+            if call_attr(c) != "gather":
+                continue
+            cur = c
+            while id(cur) in pm_sb and not isinstance(pm_sb[id(cur)], ast.stmt):
+                cur = pm_sb[id(cur)]
+                if isinstance(cur, ast.Call) and call_attr(cur) in ("wait_for", "wait", "timeout", "timeout_at"):
+                    cancel_wrap = cur
+            st = pm_sb.get(id(cur))
+            while st is not None and st is not sb.node:
+                if isinstance(st, ast.AsyncWith) and any("timeout" in norm(i.context_expr) for i in st.items):
+                    cancel_wrap = st.items[0].context_expr
+                st = pm_sb.get(id(st))
+    pa = prog.func(f"{ER}._post_async")
+    rebuffers_on_cancel = False
+    for tr in [n for n in walk_no_nested(pa.node) if isinstance(n, ast.Try)]:
+        if not any(isinstance(c, ast.Call) and call_attr(c) == "send_async" for b in tr.body for c in ast.walk(b)):
+            continue
+        for h in tr.handlers:
+            names = [norm(x).split(".")[-1] for x in (h.type.elts if isinstance(h.type, ast.Tuple) else [h.type])] if h.type is not None else ["<bare>"]
+            if any(n_ in ("CancelledError", "BaseException", "<bare>") for n_ in names) and any(
+                    isinstance(c, ast.Call) and call_attr(c) == "_buffer_message" for b in h.body for c in ast.walk(b)):
+                rebuffers_on_cancel = True
+        if any(isinstance(c, ast.Call) and call_attr(c) == "_buffer_message" for b in tr.finalbody for c in ast.walk(b)):
+            rebuffers_on_cancel = True
+    if cancel_wrap is None or rebuffers_on_cancel:
+        ctx.ok("R27e", inst)
+    else:
+        ctx.fail("R27e", sb, cancel_wrap, inst, f"`{norm(cancel_wrap)[:70]}` can cancel posts that are still pending after their messages have been "
+                 "taken out of the buffer; _post_async puts a message back only on ProtocolNetworkException, so a cancelled post's "
+                 "message is neither delivered nor buffered - the next round finds the buffer empty and reports Reconnected")
     # ---- R27d
     bl = prog.func(f"{ER}.buffer_messages")
     ctx.analysed(bl)
